@@ -16,7 +16,10 @@ KINDS = (
     "(c) process-wide / class-level state leaking between objects or calls; (d) a rarely used module type, rarely used field combination or boundary value that ordinary use never hits; "
     "(e) behaviour that differs only on an error / exception path; (f) an interaction between two features that are each fine alone (e.g. MetaModules x patterns, Sampler x options, links x layers, old file versions x new fields); "
     "(g) an alternative API entry point that does the same job as the usual one (write_to vs read, += vs attach_*, constructor keywords vs attribute assignment, new_module vs attach_module, set_raw vs assignment, loading from a path vs a stream); "
-    "(h) a Python-level subtlety (int/bool/enum confusion, `is` vs `==`, mutable default, masking or overflow at an 8/16/32-bit boundary, signedness, text encoding, dict/set ordering, generator vs list, shallow vs deep copy)"
+    "(h) a Python-level subtlety (int/bool/enum confusion, `is` vs `==`, mutable default, masking or overflow at an 8/16/32-bit boundary, signedness, text encoding, dict/set ordering, generator vs list, shallow vs deep copy); "
+    "(i) dependence on the ORDER in which independent things happen (which module is constructed or attached first, which file is loaded first, which option / controller / field is assigned last, whether an object was saved or looked at before it is changed); "
+    "(j) numeric detail (rounding, integer vs true division, float precision, sign, wrap-around at 2^15 / 2^16 / 2^31, a single special value deep inside a large range); "
+    "(k) text and bytes (non-ASCII, combining characters, strings exactly at or one past a length limit, bytes vs str, trailing NULs)"
 )
 for p in props:
     pid = p['id']
@@ -53,7 +56,7 @@ Leave the worktree with your change applied (uncommitted). Report briefly (5 lin
 
 IMPORTANT: earlier, independent attempts already produced these changes:
 {chr(10).join(earlier)}
-Do something clearly DIFFERENT from all of them - a different mechanism in a different code area; in particular no further byte/parse caches, memoisation or "write the loaded bytes back" shortcuts if those appear above. Be inventive: think about which part of the property nobody would think of testing, and which legitimate way of using the library nobody would think of trying. The change MUST be of one of these kinds: {KINDS}. Single-line off-by-one edits in the obvious function are NOT wanted. Avoid anything that makes ordinary default usage fail, and make sure the change really violates the property AS STATED (re-read the statement and its quantifier; do not rely on a stronger reading of it, and do not rely on inputs outside the quantified domain).
+Do something clearly DIFFERENT from all of them - a different mechanism in a different code area; in particular no further byte/parse caches, memoisation or "write the loaded bytes back" shortcuts if those appear above. Before you choose, sketch TWO OR THREE different candidate changes and pick the one you believe a thorough, generator-based test framework (one that round-trips randomly generated objects of every module type, edits loaded objects, replays operation histories against a model and injects faults) would be LEAST likely to notice. Be inventive: think about which part of the property nobody would think of testing, and which legitimate way of using the library nobody would think of trying. The change MUST be of one of these kinds: {KINDS}. Single-line off-by-one edits in the obvious function are NOT wanted. Avoid anything that makes ordinary default usage fail, and make sure the change really violates the property AS STATED (re-read the statement and its quantifier; do not rely on a stronger reading of it, and do not rely on inputs outside the quantified domain).
 '''
     open('/tmp/seeded_prompts%s/%s.txt' % (R, pid), 'w').write(txt)
 print('written', len(props))
